@@ -510,14 +510,16 @@ class PiecewiseConstantCoalescentGrid(AbstractCoalescentDistribution):
 
     def sufficient_statistics(self, node_heights: torch.Tensor):
         node_mask_sorted, lchoose2, durations = self._sorted_terms(node_heights)
-        groups = torch.tensor_split(
-            lchoose2 * durations, torch.where(node_mask_sorted == 0)[0]
+        # index of the grid interval of every event (same rule as in log_prob)
+        indices = (node_mask_sorted == 0).to(dtype=torch.long).cumsum(-1)
+        terms = lchoose2 * durations
+        shape = terms.shape[:-1] + (self.theta.shape[-1],)
+        sufficient_statistics = torch.zeros(shape, dtype=terms.dtype).scatter_add(
+            -1, indices[..., :-1], terms
         )
-        sufficient_statistics = torch.tensor(list(map(torch.sum, groups)))
-        groups = torch.tensor_split(
-            node_mask_sorted == -1, torch.where(node_mask_sorted == 0)[0]
+        coalescent_counts = torch.zeros(shape, dtype=torch.long).scatter_add(
+            -1, indices, (node_mask_sorted == -1).to(dtype=torch.long)
         )
-        coalescent_counts = torch.tensor(list(map(torch.sum, groups)))
         return sufficient_statistics, coalescent_counts
 
     def log_prob(self, node_heights: torch.Tensor) -> torch.Tensor:
